@@ -103,7 +103,7 @@ pub open spec fn step(s: Seq<u8>) -> Step {
 // ------------------------------------------------------------------------------------------
 // frame.rs
 // ------------------------------------------------------------------------------------------
-//@fn protocol/src/frame.rs :: Frame :: get_length [props=C05 C06]
+//@fn protocol/src/frame.rs :: Frame :: get_length [props=C05 C06 C01 C02 C08]
     ensures
         r is Ok ==> r->Ok_0 == body(*self).len(),                                   // [C05.length_is_payload_length]
 //@end
@@ -113,7 +113,7 @@ pub open spec fn step(s: Seq<u8>) -> Step {
         r == ty(*self),                                                             // [C05.type_code]
 //@end
 
-//@fn protocol/src/frame.rs :: Frame :: write_to_bytes [props=C05 C06]
+//@fn protocol/src/frame.rs :: Frame :: write_to_bytes [props=C05 C06 C01 C02 C08]
     ensures
         r is Ok ==> final(dst)@ =~= old(dst)@ + body(self),                         // [C05.body_written]
 //@end
@@ -125,7 +125,7 @@ pub open spec fn step(s: Seq<u8>) -> Step {
         self == Frame::Message(r),
 //@end
 
-//@fn protocol/src/frame.rs :: TryFrom<(u8, BytesMut)> for Frame :: try_from [props=C05 C06]
+//@fn protocol/src/frame.rs :: TryFrom<(u8, BytesMut)> for Frame :: try_from [props=C05 C06 C01 C02 C08]
     ensures
         r is Ok <==> parse(__arg0.0, __arg0.1@) is Some,                            // [C05.parse_total C06.no_panic]
         r is Ok ==> r->Ok_0 == parse(__arg0.0, __arg0.1@)->Some_0,                  // [C05.parse_value]
@@ -141,14 +141,14 @@ pub open spec fn step(s: Seq<u8>) -> Step {
         r is Ok <==> length <= MIB(),                                               // [C05.limit_is_1MiB]
 //@end
 
-//@fn protocol/src/codec.rs :: Encoder<Frame> for MessageCodec :: encode [props=C05 C11]
+//@fn protocol/src/codec.rs :: Encoder<Frame> for MessageCodec :: encode [props=C05 C11 C01 C02 C08]
     ensures
         body(item).len() > MIB() ==> r is Err && final(dst)@ == old(dst)@,          // [C05.encoder_refuses_over_1MiB]
         r is Ok ==> final(dst)@ =~= old(dst)@ + wire(item),                         // [C05.wire_format]
         r is Ok ==> body(item).len() <= MIB(),                                      // [C05.encoder_limit]
 //@end
 
-//@fn protocol/src/codec.rs :: Decoder for MessageCodec :: decode [props=C05 C06]
+//@fn protocol/src/codec.rs :: Decoder for MessageCodec :: decode [props=C05 C06 C01 C02 C08]
     ensures
         step(old(src)@) is Need ==> r == Ok::<Option<Frame>, SeliumError>(None) && final(src)@ == old(src)@,     // [C05.wait_for_whole_frame]
         step(old(src)@) is Bad ==> r is Err && final(src)@ == old(src)@,                                         // [C05.decoder_refuses_before_buffering]
